@@ -203,6 +203,17 @@ Theorem C16_chain_with_lists_partial : forall im anns rt api ms,
 Proof. exact chain_with_lists. Qed.
 Print Assumptions C16_chain_with_lists_partial.
 
+(* C16_full with list requests: for a valid declared package and known defaults, building the list request of
+   every list method succeeds and leaves the result of C16_full unchanged *)
+Theorem C16_full_lists : forall (to_snake : str -> str) (P : decl_package) rt,
+  valid_package to_snake P -> defaults_known rt ->
+  let r0 := run_chain current_config (compile_image to_snake P) in
+  let g := im_schemas (compile_image to_snake P) in
+  with_lists rt g r0 = r0
+  /\ Forall (fun m => exists o, method_list_fields rt g m = Ok o) (declared_clients to_snake P).
+Proof. exact chain_full_lists. Qed.
+Print Assumptions C16_full_lists.
+
 (* the hypothesis defaults_known is needed: a default filter that names no option fails the client stage *)
 Theorem C16_list_unknown_default_refuted : lex_fields ["NOPE"]%string = Err "unknown enum value".
 Proof. exact list_fields_unknown_default_refuted. Qed.
